@@ -81,11 +81,45 @@ def need_dict(ip, st, t, what):
 
 
 # --------------------------------------------------------------------------- stores
+def shares_nothing(ip, st, v):
+    """the value v can be stored into a deep copy without making it share a mutable object: immutable scalars, and
+    objects that are themselves deep copies made during this call"""
+    from .sym import Sentinel
+    if isinstance(v, (Num, Bool, NoneV, Str, Sentinel)):
+        return True
+    if isinstance(v, Opaque) and v.sort == "Key":
+        return True
+    if isinstance(v, Tup):
+        return all(shares_nothing(ip, st, x) for x in v.items)
+    if isinstance(v, Ref):
+        return (v.cid in st.notes.get("deep_copies", ()) and not v.path
+                and (ip.entry is None or v.cid not in ip.entry.heap))
+    return False
+
+
+def note_store(ip, st, base, v):
+    """ownership provenance: a deep copy that gets a possibly shared object stored into it is no deep copy any more"""
+    if isinstance(base, Ref) and base.cid in st.notes.get("deep_copies", ()) and not shares_nothing(ip, st, v):
+        st.notes["deep_copies"] = set(st.notes["deep_copies"]) - {base.cid}
+
+
 def val_store(ip, s, base, idx, v):
     cur = ip.deref(s, base)
     need_dict(ip, s, cur, "item-store")
     k = ip.key_term(idx)
     new = T("(D (store (dm %s) %s (some %s)))" % (cur.s, k.s, dterm(ip, s, v).s), "Val")
+    note_store(ip, s, base, v)
+    if not base.path and base.cid in s.notes.get("iterating", ()):
+        # d[k] = v inside `for ... in d`: legal python only if it does not change the key set
+        if not ip.spec_mode:
+            ip.emit("safety", "store-into-iterated-dict-keeps-keys", s, T("(vhas %s %s)" % (cur.s, k.s), "Bool"))
+        s.assume(T("(vhas %s %s)" % (cur.s, k.s), "Bool"))
+        ip._iter_store_ok = True
+        try:
+            ip.store(s, base, new)
+        finally:
+            ip._iter_store_ok = False
+        return [s]
     ip.store(s, base, new)
     return [s]
 
@@ -118,6 +152,11 @@ def val_method(ip, st, recv, name, pos, kws):
             dflt = pos[1]
             if isinstance(dflt, Opaque) and dflt.sort == "Val":
                 return [(st, Opaque(ITE(has, got.t, dflt.t)))]
+            try:
+                # scalars are embedded into Val: one merged value instead of two paths
+                return [(st, Opaque(ITE(has, got.t, scalar(ip, st, dflt))))]
+            except Exception:
+                pass
             outs = [(st.fork(has, "g."), got), (st.fork(NOT(has), "d."), dflt)]
             return outs
         # d.get(k) -> None when absent: callers in this code base test the result with isinstance(..., dict)
@@ -149,6 +188,7 @@ def val_method(ip, st, recv, name, pos, kws):
         return outs
     if name == "update" and isinstance(recv, Ref):
         need_dict(ip, st, t, "update")
+        note_store(ip, st, recv, pos[0])
         o = dterm(ip, st, pos[0])
         need_dict(ip, st, o, "update-arg")
         f = ip.reg.ufun("dict_update", ["Val", "Val"], "Val")
@@ -199,8 +239,18 @@ def for_dict(ip, s, st, itv, k, spec, mode=None):
     h = st.fork(None, "L%s:" % k)
     havoc_loop(ip, s, h, spec, s.body)
     dt = dterm(ip, h, itv)
-    if dt.s != dt0.s:
-        raise U("loop #%s mutates the dictionary it iterates" % k)
+    mutated = dt.s != dt0.s
+    if mutated:
+        # the body stores into the dictionary it iterates.  Python allows replacing the VALUE of an existing key during
+        # iteration (the key set and the order of visits are unaffected); anything else is rejected: while the body
+        # runs the cell is marked `iterating`, a store `d[k] = v` must prove k in d (val_store) and every other
+        # change of the cell raises Unsupported (Interp.store).  Hence the key set at the loop head is the initial one.
+        if not (isinstance(itv, Ref) and isinstance(h.heap[itv.cid], ValCell) and not itv.path):
+            raise U("loop #%s mutates the dictionary it iterates" % k)
+        h.assume(T("(isD %s)" % dt.s, "Bool"))
+        qm = T("mk%d" % next(ip.bound), "Key")
+        h.assume(T("(forall ((%s Key)) (! (= (vhas %s %s) (vhas %s %s)) :pattern ((select (dm %s) %s))))"
+                   % (qm.s, dt.s, qm.s, dt0.s, qm.s, dt.s, qm.s), "Bool"))
     seen = reg.new("seen", SEEN)
     q = T("sk%d" % next(ip.bound), "Key")
     h.assume(T("(forall ((%s Key)) (! (=> (select %s %s) (vhas %s %s)) :pattern ((select %s %s))))"
@@ -212,6 +262,8 @@ def for_dict(ip, s, st, itv, k, spec, mode=None):
     outs = []
     # ---- one iteration
     b = h.fork(None, "V.")
+    if mutated:
+        b.notes["iterating"] = set(b.notes.get("iterating", ())) | {itv.cid}
     key = reg.new("key", "Key")
     b.assume(T("(vhas %s %s)" % (dt.s, key.s), "Bool"))
     b.assume(NOT(T("(select %s %s)" % (seen.s, key.s), "Bool")))
@@ -229,6 +281,8 @@ def for_dict(ip, s, st, itv, k, spec, mode=None):
                 check_invariants(ip, k, spec, s4, "preserve")
             elif kind == "break":
                 s4.trace += "B."
+                if mutated:
+                    s4.notes["iterating"] = set(s4.notes.get("iterating", ())) - {itv.cid}
                 outs.append(("next", s4, None))
             else:
                 outs.append((kind, s4, payload))
